@@ -231,6 +231,54 @@ pub fn history(dom: &Domain, seed: u64, hist: u64, sock_dir: &str, out: &mut dyn
     let mut cs: Vec<CState> = (0..nclients)
         .map(|_| CState { connected: false, closed: false, wr: false, rd: false, outq: VecDeque::new(), nreq: 0, stop_reading: false, nfd: 0 })
         .collect();
+    // one capacity history in eight is a scripted churn at the limit: the table is full, a connection with
+    // a yielded request closes while one or two further clients wait in the backlog (so the listener is
+    // ahead of the hang-up in the kernel's ready list), the late answer arrives, the server polls again
+    if dom.name == "C10" && hist % 8 == 3 && nclients >= crate::MAX_CONN + 2 {
+        let m = crate::MAX_CONN;
+        for c in 1..=m {
+            d.step(&json!({"e": "connect", "c": c}), out);
+            if d.ready() {
+                d.step(&json!({"e": "poll"}), out);
+            }
+        }
+        let a = rng.gen_range(1..=m);
+        let mut req = b"GET ".to_vec();
+        req.extend(tag_uri(a, 1));
+        req.extend(b" HTTP/1.1\r\n\r\n");
+        d.step(&json!({"e": "send", "c": a, "bytes": obs::bytes(&req)}), out);
+        if d.ready() {
+            d.step(&json!({"e": "poll"}), out);
+        }
+        let waiting = rng.gen_range(2..=(nclients - m).min(3));
+        for c in (m + 1)..=(m + waiting) {
+            d.step(&json!({"e": "connect", "c": c}), out);
+        }
+        d.step(&json!({"e": if rng.gen_bool(0.7) { "close" } else { "shutwr" }, "c": a}), out);
+        let respond_first = rng.gen_bool(0.3);
+        if respond_first {
+            d.step(&json!({"e": "respond", "c": a, "k": 0, "pad": 0, "code": 200}), out);
+        }
+        if d.ready() {
+            d.step(&json!({"e": "poll"}), out);
+        }
+        if !respond_first {
+            d.step(&json!({"e": "respond", "c": a, "k": 0, "pad": 0, "code": 200}), out);
+        }
+        for _ in 0..3 {
+            if d.ready() {
+                d.step(&json!({"e": "poll"}), out);
+            }
+        }
+        for c in 1..=(m + waiting) {
+            if c != a {
+                d.step(&json!({"e": "recv", "c": c}), out);
+            }
+        }
+        d.step(&json!({"e": "fdcount"}), out);
+        writeln!(out, "{}", json!({"e": "endhist", "hist": hist})).unwrap();
+        return;
+    }
     let mut cur_limit = limit;
     let kill_at = if prekill { rng.gen_range(0..6) } else if dom.kill { rng.gen_range(0..dom.steps) } else { usize::MAX };
     let mut killed = false;
